@@ -65,7 +65,17 @@ func runC06(t *testing.T, cell c06Cell) {
 	id := cell.id()
 	rep.Begin("C06", id)
 	uid := uniqueID("t")
-	sc := &scenario{ID: uid, GenerateSelector: cell.GenSel, Kinds: []kindCfg{{Kind: cell.Kind, Method: cell.Method}}}
+	// a second child rule without any update strategy, listed before the one under test (or after
+	// it, with generateSelector): the strategy of a rule does not depend on its neighbours
+	otherKind := kindCfg{Kind: "Widget", Method: "<nil>"}
+	if cell.Kind == "Widget" {
+		otherKind.Kind = "ConfigMap"
+	}
+	kinds := []kindCfg{otherKind, {Kind: cell.Kind, Method: cell.Method}}
+	if cell.GenSel {
+		kinds = []kindCfg{{Kind: cell.Kind, Method: cell.Method}, otherKind}
+	}
+	sc := &scenario{ID: uid, GenerateSelector: cell.GenSel, Kinds: kinds}
 	target := kidCfg{Kind: cell.Kind, Name: "target-" + uid, Value: "v1"}
 	if cell.Diff == "sysmeta" {
 		target.MetaExtra = map[string]interface{}{"uid": "bogus-uid", "resourceVersion": "1", "creationTimestamp": "1999-01-01T00:00:00Z", "generation": int64(77), "selfLink": "/x"}
